@@ -7,6 +7,9 @@ import RuxModel.Go.Panic
 namespace Rux
 namespace GoRt
 
+/-- a string-keyed map (Params) as an association list -/
+abbrev KV := List (Bytes × Bytes)
+
 /-- type of a definition the translator could not produce; nothing can be proved about it -/
 structure Untranslatable where
   why : String
@@ -32,6 +35,28 @@ def elemAt (s : List Bytes) (i : Int) : Except Panic Bytes :=
 def slice (s : Bytes) (lo hi : Int) : Except Panic Bytes :=
   if 0 ≤ lo ∧ lo ≤ hi ∧ hi ≤ s.length then .ok ((s.drop lo.toNat).take (hi.toNat - lo.toNat))
   else .error .index
+
+/-- Go `xs[i]` on a slice -/
+def listAt {α : Type} (s : List α) (i : Int) : Except Panic α :=
+  if i < 0 then .error .index else
+  match s[i.toNat]? with
+  | some b => .ok b
+  | none => .error .index
+
+/-- Go `xs[lo:hi]` on a slice (capacity = length here) -/
+def sliceList {α : Type} (s : List α) (lo hi : Int) : Except Panic (List α) :=
+  if 0 ≤ lo ∧ lo ≤ hi ∧ hi ≤ s.length then .ok ((s.drop lo.toNat).take (hi.toNat - lo.toNat))
+  else .error .index
+
+/-- `for i, v := range xs`: the (index, element) pairs -/
+def enumFrom {α : Type} (k : Int) : List α → List (Int × α)
+  | [] => []
+  | x :: t => (k, x) :: enumFrom (k + 1) t
+
+def enum {α : Type} (xs : List α) : List (Int × α) := enumFrom 0 xs
+
+/-- `m[k] = v` on a string map kept as an association list (latest binding first, older one removed) -/
+def kvSet (m : KV) (k v : Bytes) : KV := (k, v) :: m.filter (fun x => x.1 != k)
 
 /-- `strings.IndexByte`, with Go's `-1` -/
 def indexByte (s : Bytes) (c : Nat) : Int :=
@@ -137,9 +162,6 @@ def set (m : HMap) (k : Bytes) (e : Option Nat) : HMap :=
   | some i => { items := (k, i) :: (m.del k).items }
 
 end HMap
-
-/-- a string-keyed map whose contents do not matter to the translated code (Params, context data) -/
-abbrev KV := List (Bytes × Bytes)
 
 /-- values stored in the context data map by rux itself -/
 inductive DV
